@@ -31,9 +31,9 @@ def polled_type(out, ai: int):
     if ai >= len(out["results"]):
         return None
     a = out["actions"][ai]
-    if a[0] in ("D", "X"):
+    if a[0] in ("D", "X", "M"):      # M: a delivery with a sweeper thread in the middle - the handler is the polled message's
         return out["results"][ai].get("polled")
-    return {"R": "<recovery>", "C": "<cancel request>", "B": "<submit>", "S": "<signal request>", "P": "<pause request>",
+    return {"W": "<maintenance sweep>", "R": "<recovery>", "C": "<cancel request>", "B": "<submit>", "S": "<signal request>", "P": "<pause request>",
             "U": "<unpause request>", "T": "<restart request>"}.get(a[0])
 
 
